@@ -140,6 +140,15 @@ M = [
      '                SPL[adjacency == 0] = np.inf\n', '', []),
     ('L04 body of cuberoot changed (seen through the weighted clustering routines)', 'clust', 'bct/utils/miscellaneous_utilities.py',
      '    return np.sign(x) * np.abs(x)**(1 / 3)\n', '    return np.abs(x)**(1 / 3)\n', []),
+    ('L06 body of cuberoot changed (seen through the local branches of efficiency_wei)', 'eff', 'bct/utils/miscellaneous_utilities.py',
+     '    return np.sign(x) * np.abs(x)**(1 / 3)\n', '    return np.abs(x)**(1 / 3)\n', []),
+    ("S03 efficiency_wei, branch local in (True, 'local'): the lengths are not cube-rooted (the statement of the other branch)", 'eff',
+     'bct/algorithms/efficiency.py', 'e = distance_inv_wei(cuberoot(Gl)[np.ix_(V, V)])', 'e = distance_inv_wei(Gl[np.ix_(V, V)])', []),
+    ("S04 efficiency_wei, branch local == 'original': the inverse distances are not cube-rooted", 'eff',
+     'bct/algorithms/efficiency.py', 'se = cuberoot(e) + cuberoot(e.T)', 'se = e + e.T', []),
+    ("A33 efficiency_wei, branch local in (True, 'local'): the neighbourhood from the out-links only", 'eff',
+     'bct/algorithms/efficiency.py', "    elif local in (True, 'local'):\n        E = np.zeros((n,))\n        for u in range(n):\n            V, = np.where(np.logical_or(Gw[u, :], Gw[:, u].T))",
+     "    elif local in (True, 'local'):\n        E = np.zeros((n,))\n        for u in range(n):\n            V, = np.where(Gw[u, :])", ['efficiency_wei', 'V, = np.where(np.logical_or']),
 ]
 
 
@@ -207,6 +216,11 @@ R = [
      'bct/algorithms/modularity.py',
      lambda t: (lambda a, b: t[:a] + re.sub(r'\bu\b', 'mod_a', t[a:b]) + t[b:])(
          t.index('for u in range(m):', t.index('def modularity_finetune_und(')), t.index('def modularity_finetune_und_sign(')), True),
+    ('R17 efficiency_wei: locals of the nested function and of the branches renamed', 'eff', 'bct/algorithms/efficiency.py',
+     ren('efficiency_wei', ('sw', 'wsym'), ('numer', 'top'), ('minD', 'dmin'), ('Gl', 'lengths')), True),
+    ('R18 efficiency_wei: a real change (`+` for `-` in the denominator) next to a renamed local', 'eff', 'bct/algorithms/efficiency.py',
+     seq(ren('efficiency_wei', ('sw', 'wsym')), rep('            se = e+e.T\n         \n            numer = np.sum(np.outer(wsym.T, wsym) * se) / 2\n            if numer != 0:\n                # symmetrized adjacency vector\n                sa = A[u, V] + A[V, u].T\n                denom = np.sum(sa)**2 - np.sum(sa * sa)',
+                                                   '            se = e+e.T\n         \n            numer = np.sum(np.outer(wsym.T, wsym) * se) / 2\n            if numer != 0:\n                # symmetrized adjacency vector\n                sa = A[u, V] + A[V, u].T\n                denom = np.sum(sa)**2 + np.sum(sa * sa)')), False),
     ('R16 pinned routine: a real change (`>` for `>=`) next to a renamed local', 'pinrew', 'bct/algorithms/reference.py',
      seq(ren('randmio_und', ('eff', 'effective')), rep('while att <= max_attempts:', 'while att < max_attempts:')), False),
 ]
